@@ -9,7 +9,13 @@
                    reading the same types in the same byte order returns the values;
                    changing the order only affects what is written / read afterwards.
 
-   Writer actions (one per public call): SetOrder, Write (scalar), WriteArray, WriteString.
+   The values written are INPUTS: operator<< takes them by const reference and must leave them as they are, so the
+   caller may write the same object (scalar variable, Array<T> - a shared, reference-counted buffer -, String) again
+   and again and gets the bytes of its value every time.  The caller's objects are the variable `pool`; WriteObj(i)
+   writes object i and leaves the pool unchanged, PoolSet is the caller assigning to (an element of) its own object.
+
+   Writer actions (one per public call): SetOrder, Write (scalar), WriteArray, WriteString, WriteObj (any of the three
+   applied to a long-lived object of the caller); caller actions on its objects: NewObj, PoolSet.
    Reader actions: RSetOrder, Read (scalar), ReadRaw (n bytes) - used by the trace specification; in model-checking
    mode the read side is checked as the invariant ReadBack (decoding everything written so far, item by item, in the
    byte order each item was written with, yields the items).
@@ -22,15 +28,20 @@ CONSTANTS Native,     \* "LITTLE" or "BIG": the byte order ENDIAN_NATIVE stands 
           ArrayTypes, \* element types of generated arrays
           ArrayLens,  \* lengths of generated arrays
           NVals,      \* number of sample bit patterns tried per scalar type
-          MaxOps,     \* bound on the history length (model checking)
+          MaxOps,     \* bound on the number of calls in a history (model checking)
+          PoolTypeSeqs,\* model checking: one initial pool of caller objects per sequence of element types in this set ({}: no pool)
+          PoolLens,   \* model checking: lengths of the Array objects of a pool (a sequence, one array per entry and type)
+          PoolSetIdx, \* model checking: element positions the caller assigns to (PoolSet)
           KeepHist    \* TRUE: whole history kept (model checking / replay); FALSE: only the last call (trace validation)
 
 VARIABLES worder,     \* byte order in force on the writing side
           rorder,     \* byte order in force on the reading side
           out,        \* bytes written and not yet read
           hist,       \* the calls (model checking: all of them)
-          hz          \* spec-level hazard tags of the history (matching of known findings)
-vars == <<worder, rorder, out, hist, hz>>
+          hz,         \* spec-level hazard tags of the history (matching of known findings)
+          pool        \* the caller's long-lived value objects: [k |-> "w" (scalar) | "wa" (Array<T>) | "ws" (String),
+                      \*   t |-> element type ("ch" for strings), a |-> its elements as bit patterns (one for a scalar)]
+vars == <<worder, rorder, out, hist, hz, pool>>
 
 Orders == {"BIG", "LITTLE", "NATIVE"}
 Byte   == 0..255
@@ -88,53 +99,104 @@ NSamples(t) == Len(Samples(t))
 SampleArray(t, n, s) == [i \in 1..n |-> Samples(t)[((i + s - 1) % NSamples(t)) + 1]]
 SampleStrings == { <<>>, <<97>>, <<104, 105, 32, 255, 1, 10>> }
 
+\* the caller's objects (model checking): per element type one scalar variable and one Array per entry of PoolLens,
+\* and one String at the end
+ObjsOf(t)  == << [k |-> "w", t |-> t, a |-> <<Samples(t)[1]>>] >> \o
+              [n \in 1..Len(PoolLens) |-> [k |-> "wa", t |-> t, a |-> SampleArray(t, PoolLens[n], n - 1)]]
+StrObj     == [k |-> "ws", t |-> "ch", a |-> << <<104>>, <<105>>, <<255>>, <<1>> >>]
+PoolOf(ts) == Flat([i \in 1..Len(ts) |-> ObjsOf(ts[i])]) \o <<StrObj>>
+\* values for the constants PoolTypeSeqs / PoolLens (configuration files cannot spell tuples: `PoolLens <- Lens31`)
+PoolsNone   == {}
+PoolsSingle == {<<t>> : t \in AllTypes}
+LensNone == <<>>
+Lens31   == <<3, 1>>
+InitPools  == IF PoolTypeSeqs = {} THEN {<<>>} ELSE {PoolOf(ts) : ts \in PoolTypeSeqs}
+\* the value the caller assigns next: the sample pattern after the current one (strings: the next non-NUL character)
+Succ(k, t, v) == IF k = "ws" THEN <<(v[1] % 255) + 1>>
+                 ELSE LET S == Samples(t)
+                          c == {x \in 1..Len(S) : S[x] = v}
+                      IN  IF c = {} THEN S[1] ELSE S[((CHOOSE x \in c : TRUE) % Len(S)) + 1]
+
 -------------------------------------------------------------------------------
+NewRec(i, o) == [op |-> "new", i |-> i, k |-> o.k, t |-> o.t, a |-> o.a]
 Init == /\ worder = "NATIVE" /\ rorder = "NATIVE"     \* File and Socket start in ENDIAN_NATIVE; the harness constructs buffers likewise
         /\ out = <<>>
-        /\ hist = <<>>
         /\ hz = {}
+        /\ pool \in InitPools
+        /\ hist = IF KeepHist THEN [i \in 1..Len(pool) |-> NewRec(i, pool[i])] ELSE <<>>   \* the caller creates its objects first
 
 Log(rec, tags) == /\ hist' = IF KeepHist THEN Append(hist, rec) ELSE <<rec>>
                   /\ hz' = IF KeepHist THEN hz \cup tags ELSE tags
 
 SetOrder(o) == /\ worder' = o
-               /\ UNCHANGED <<rorder, out>>
+               /\ UNCHANGED <<rorder, out, pool>>
                /\ Log([op |-> "set", o |-> o], {})
 
-Write(t, v) == /\ Len(v) = Size(t)
-               /\ out' = out \o ScalarBytes(v, worder)
-               /\ UNCHANGED <<worder, rorder>>
-               /\ Log([op |-> "w", t |-> t, v |-> v, o |-> worder], {})
+\* Every write takes its argument by const reference: whatever object of the caller the value lives in (src = its pool
+\* index, 0 = a temporary) is the same afterwards - UNCHANGED pool.
+WriteFrom(t, v, src) == /\ Len(v) = Size(t)
+                        /\ out' = out \o ScalarBytes(v, worder)
+                        /\ UNCHANGED <<worder, rorder, pool>>
+                        /\ Log([op |-> "w", t |-> t, v |-> v, o |-> worder, src |-> src], {})
+Write(t, v) == WriteFrom(t, v, 0)
 
 \* operator<<(const Array<T>&): length x sizeof(T) bytes, each element in the order in force
-WriteArray(t, a) == /\ {i \in 1..Len(a) : Len(a[i]) # Size(t)} = {}
+WriteArrayFrom(t, a, src) ==
+                    /\ {i \in 1..Len(a) : Len(a[i]) # Size(t)} = {}
                     /\ out' = out \o ArrayBytes(a, worder)
-                    /\ UNCHANGED <<worder, rorder>>
-                    /\ Log([op |-> "wa", t |-> t, a |-> a, o |-> worder],
+                    /\ UNCHANGED <<worder, rorder, pool>>
+                    /\ Log([op |-> "wa", t |-> t, a |-> a, o |-> worder, src |-> src],
                            \* the code's unswapped path (one write() of the whole block) - DESIGN.md section 7
                            IF Size(t) > 1 /\ Len(a) > 0 /\ Effective(worder) = Native THEN {"NativeOrderArrayLength"} ELSE {})
+WriteArray(t, a) == WriteArrayFrom(t, a, 0)
 
 \* operator<<(const String&) / (const char*): the characters, no length, no terminator, no byte order
-WriteString(s) == /\ out' = out \o s
-                  /\ UNCHANGED <<worder, rorder>>
-                  /\ Log([op |-> "ws", s |-> s, o |-> worder], {})
+WriteStringFrom(s, src) == /\ out' = out \o s
+                           /\ UNCHANGED <<worder, rorder, pool>>
+                           /\ Log([op |-> "ws", s |-> s, o |-> worder, src |-> src], {})
+WriteString(s) == WriteStringFrom(s, 0)
+
+(* the caller's long-lived objects *)
+ObjOK(o) == /\ o.k \in {"w", "wa", "ws"} /\ o.t \in AllTypes
+            /\ (o.k = "w" => Len(o.a) = 1) /\ (o.k = "ws" => o.t = "ch")
+            /\ {j \in 1..Len(o.a) : Len(o.a[j]) # Size(o.t)} = {}
+\* the characters of a String object (one 1-byte element each)
+Chars(a) == [j \in 1..Len(a) |-> a[j][1]]
+NewObj(k, t, a) == /\ ObjOK([k |-> k, t |-> t, a |-> a])
+                   /\ pool' = Append(pool, [k |-> k, t |-> t, a |-> a])
+                   /\ UNCHANGED <<worder, rorder, out>>
+                   /\ Log(NewRec(Len(pool) + 1, [k |-> k, t |-> t, a |-> a]), {})
+\* the caller assigns v to element j of its object i (a scalar variable has the single element 1)
+PoolSet(i, j, v) == /\ i \in 1..Len(pool)
+                    /\ IF i \in 1..Len(pool) THEN j \in 1..Len(pool[i].a) /\ Len(v) = Size(pool[i].t) ELSE FALSE
+                    /\ pool' = [pool EXCEPT ![i].a[j] = v]
+                    /\ UNCHANGED <<worder, rorder, out>>
+                    /\ Log([op |-> "pset", i |-> i, j |-> j, v |-> v], {})
+\* stream << object i: the bytes of its present value; the object is an input (the write actions leave pool unchanged)
+WriteObj(i) == /\ i \in 1..Len(pool)
+               /\ IF i \in 1..Len(pool)
+                  THEN LET o == pool[i] IN
+                       IF o.k = "w" THEN WriteFrom(o.t, o.a[1], i)
+                       ELSE IF o.k = "wa" THEN WriteArrayFrom(o.t, o.a, i)
+                       ELSE WriteStringFrom(Chars(o.a), i)
+                  ELSE FALSE
 
 (* reading side (trace validation) *)
 RSetOrder(o) == /\ rorder' = o
-                /\ UNCHANGED <<worder, out>>
+                /\ UNCHANGED <<worder, out, pool>>
                 /\ Log([op |-> "rset", o |-> o], {})
 ReadValue(t)  == Assemble(SubSeq(out, 1, Size(t)), rorder)
 Read(t) == /\ Len(out) >= Size(t)
            /\ out' = SubSeq(out, Size(t) + 1, Len(out))
-           /\ UNCHANGED <<worder, rorder>>
+           /\ UNCHANGED <<worder, rorder, pool>>
            /\ Log([op |-> "r", t |-> t, v |-> ReadValue(t), o |-> rorder], {})
 ReadRaw(n) == /\ Len(out) >= n
               /\ out' = SubSeq(out, n + 1, Len(out))
-              /\ UNCHANGED <<worder, rorder>>
+              /\ UNCHANGED <<worder, rorder, pool>>
               /\ Log([op |-> "rs", s |-> SubSeq(out, 1, n)], {})
 
 \* model-checking mode: one named action per kind of call (so that coverage is reported per kind)
-CanStep       == Len(hist) < MaxOps
+CanStep       == Len(hist) < MaxOps + Len(pool)       \* the "new" records of the initial pool do not count
 MCSetOrder    == CanStep /\ \E o \in Orders : SetOrder(o)
 MCWrite       == CanStep /\ \E t \in ScalarTypes : \E k \in 1..NVals : k <= NSamples(t) /\ Write(t, Samples(t)[k])
 MCWriteArray  == CanStep /\ \E t \in ArrayTypes, n \in ArrayLens : WriteArray(t, SampleArray(t, n, Len(hist)))
@@ -143,10 +205,20 @@ Next == MCSetOrder \/ MCWrite \/ MCWriteArray \/ MCWriteString
 
 Spec == Init /\ [][Next]_vars
 
+\* histories over the caller's objects: the same object written repeatedly, between changes of byte order, assignments
+\* by the caller and writes of temporaries (MC_EndianStream_pool_*.cfg)
+MCWriteObj    == CanStep /\ \E i \in 1..Len(pool) : WriteObj(i)
+MCPoolSet     == CanStep /\ \E i \in 1..Len(pool), j \in PoolSetIdx :
+                               /\ j <= Len(pool[i].a)
+                               /\ IF j <= Len(pool[i].a) THEN PoolSet(i, j, Succ(pool[i].k, pool[i].t, pool[i].a[j])) ELSE FALSE
+NextPool == MCSetOrder \/ MCWriteObj \/ MCPoolSet \/ MCWrite
+SpecPool == Init /\ [][NextPool]_vars
+
 -------------------------------------------------------------------------------
 (* the property, as invariants / action properties of the specification *)
 TypeOK == /\ worder \in Orders /\ rorder \in Orders
           /\ \A i \in 1..Len(out) : out[i] \in Byte
+          /\ \A i \in 1..Len(pool) : ObjOK(pool[i])
 
 Writes == SelectSeq(hist, LAMBDA r : r.op \in {"w", "wa", "ws"})
 ItemSize(r) == IF r.op = "w" THEN Size(r.t) ELSE IF r.op = "wa" THEN Len(r.a) * Size(r.t) ELSE Len(r.s)
@@ -173,7 +245,32 @@ ReadBack == KeepHist => DecodeAll(out, Writes) = Items
 AppendOnly == [][KeepHist => (Len(out') >= Len(out) /\ SubSeq(out', 1, Len(out)) = out)]_vars
 OrderOnlyLater == [][(hist' # hist /\ hist' # <<>> /\ hist'[Len(hist')].op = "set") => out' = out]_vars
 
+\* the written objects are inputs: no stream call changes any object of the caller (only the caller itself does)
+LastOp(h) == h[Len(h)].op
+InputsUntouched == [][(hist' # hist /\ hist' # <<>> /\ LastOp(hist') \notin {"new", "pset"}) => pool' = pool]_vars
+\* ... so right after `stream << object` the object still holds exactly the value whose bytes went out,
+ObjItem(o) == IF o.k = "w" THEN o.a[1] ELSE IF o.k = "wa" THEN o.a ELSE Chars(o.a)
+RecItem(r) == IF r.op = "w" THEN r.v ELSE IF r.op = "wa" THEN r.a ELSE r.s
+WrittenObjectIntact == hist # <<>> =>
+    LET r == hist[Len(hist)] IN
+    IF r.op \in {"w", "wa", "ws"} THEN (r.src # 0 => (r.src \in 1..Len(pool) /\ ObjItem(pool[r.src]) = RecItem(r))) ELSE TRUE
+\* ... and writing one object twice with no assignment to it in between contributes the same bytes whenever the byte
+\* order in force is the same (and the reversed bytes per element when it is the opposite one - covered by ReadBack)
+RECURSIVE Chunks(_, _)
+Chunks(bs, ws) == IF ws = <<>> THEN <<>>
+                  ELSE <<SubSeq(bs, 1, ItemSize(Head(ws)))>> \o Chunks(SubSeq(bs, ItemSize(Head(ws)) + 1, Len(bs)), Tail(ws))
+WriteIdx == {i \in 1..Len(hist) : hist[i].op \in {"w", "wa", "ws"}}
+RepeatableWrites == KeepHist =>
+    LET wi == SetToSeq(WriteIdx)                 \* positions of the writes in hist (any order; paired with cs below through SortSeq)
+        ws == SortSeq(wi, LAMBDA x, y : x < y)
+        cs == Chunks(out, Writes)
+    IN \A x, y \in 1..Len(ws) :
+          (/\ x < y /\ hist[ws[x]].src # 0 /\ hist[ws[x]].src = hist[ws[y]].src
+           /\ Effective(hist[ws[x]].o) = Effective(hist[ws[y]].o)
+           /\ {z \in ws[x]..ws[y] : hist[z].op = "pset" /\ hist[z].i = hist[ws[x]].src} = {})
+          => cs[x] = cs[y]
+
 -------------------------------------------------------------------------------
-View == <<worder, rorder, out, Len(hist), hz>>
-Emit == PrintT(ToJson([hist |-> hist', out |-> out', hz |-> hz']))
+View == <<worder, rorder, out, Len(hist), hz, pool>>
+Emit == PrintT(ToJson([hist |-> hist', out |-> out', hz |-> hz', pool |-> pool']))
 ===============================================================================
